@@ -23,6 +23,9 @@ use crate::strict;
 pub struct Opt {
     #[serde(default)]
     pub preset: u32,
+    /// reference encoder only: LZMA_PRESET_EXTREME
+    #[serde(default)]
+    pub extreme: bool,
     pub dict: Option<u32>,
     pub lc: Option<u32>,
     pub lp: Option<u32>,
@@ -201,6 +204,7 @@ fn xz_opts(o: &Opt) -> XZOptions {
 fn ref_cfg(o: &Opt) -> RefCfg {
     RefCfg {
         preset: o.preset,
+        extreme: o.extreme,
         dict: o.dict,
         lc: o.lc,
         lp: o.lp,
